@@ -24,7 +24,9 @@ TRUSTED = ["correspondence harness harness/overlay/index/zz_verif_c09_test.go (g
 
 def run(ctx):
     broken, failures = [], []
-    okc, msg = fmtlib.regen_consts(ctx)
+    n = ctx.n(14, 400)
+    hr = vf.go_harness(ctx, "index", "TestVerifC09$", ["index/zz_verif_c09_test.go"], n, timeout=900 if ctx.tier == "quick" else 3600)
+    okc, msg = fmtlib.regen_consts(ctx, hr["records"])
     if not okc:
         broken.append(msg)
     proofs = vf.coq_props(ctx, "C09", extra_targets=["Model/FormatRun.vo"])
@@ -41,11 +43,11 @@ def run(ctx):
             broken.append("coqchk rejects Props/C09.vo: " + cout[-800:])
     if not proofs["ok"]:
         broken.append("proof obligations of Props/C09.v do not check: %s" % (proofs.get("broken_files") or proofs.get("nonstd_axioms") or proofs["log"][-800:]))
-    n = ctx.n(14, 400)
-    hr = vf.go_harness(ctx, "index", "TestVerifC09$", ["index/zz_verif_c09_test.go"], n, timeout=900 if ctx.tier == "quick" else 3600)
-    recs = hr["records"]
+    recs = [r for r in hr["records"] if not (r.get("kind") == "info" and r.get("what") == "consts")]
     cases = [r for r in recs if r.get("kind") == "case"]
     for r in recs:
+        if r.get("kind") == "info":
+            continue
         if r.get("kind") == "oracle_fail":
             failures.append(dict(key=r.get("key", "?"), what=r.get("what", ""), replay=r.get("replay")))
     if hr["rc"] != 0:
